@@ -59,6 +59,7 @@ Inductive gprog :=
 | PIf (c : gcond) (th el : gprog)
 | PLet (c : gcond) (a b : gval) (k : gprog)    (* a new local := a if c else b *)
 | PTry (a : gval) (x : exn) (h k : gprog)      (* try: new local := a  except x: h   (h ends in a raise); then k *)
+| PCatch (x : exn) (h body : gprog)            (* try: body  except x: h    (body: the guarded block AND what follows it) *)
 | PUnknown.                                    (* a statement the translator does not recognise *)
 
 (* ------------------------------------------------------------------ semantics *)
@@ -215,6 +216,11 @@ Section Run.
         | Ok v => run (vals ++ [v]) k
         | Raise e => if exn_eqb e x then run vals h else Bare e
         end
+    | PCatch x h body =>
+        match run vals body with
+        | Bare e => if exn_eqb e x then run vals h else Bare e
+        | o => o
+        end
     | PUnknown => Bare Unmodelled
     end.
 End Run.
@@ -226,6 +232,7 @@ Fixpoint sites (p : gprog) : list (N * exn) :=
   | PIf _ th el => sites th ++ sites el
   | PLet _ _ _ k => sites k
   | PTry _ _ h k => sites h ++ sites k
+  | PCatch _ h body => sites h ++ sites body
   | PDone _ | PUnknown => []
   end.
 
@@ -531,6 +538,7 @@ Fixpoint gsafe (env : aenv) (p : gprog) : bool :=
   | PTry a x h k =>
       tsafe env a x && gsafe env h &&
       gsafe {| a_vars := a_vars env ++ [aty env a]; a_attrs := a_attrs env |} k
+  | PCatch _ h body => gsafe env body && gsafe env h     (* the guarded program raises nothing by itself *)
   | PUnknown => false
   end.
 
